@@ -6,7 +6,7 @@ import random
 from harness import aggfam, core, gen
 from harness.core import llit, qlit, slit, zlit
 
-IMPORTS = "From Coq Require Import ZArith QArith List String.\nImport ListNotations.\nFrom Elex Require Import Model.Units Model.Compare.\n"
+IMPORTS = "From Coq Require Import ZArith QArith List String.\nImport ListNotations.\nFrom Elex Require Import Model.Units Model.Compare Model.Estimandizer.\n"
 
 RULE = ("(a) CombinedDataHandler.get_units on generated elections (boundary-heavy feeds: turnout factor exactly on / next to each limit, expected vote "
         "exactly at / one below the threshold, zero baselines, unit and state blocklists, feed rows with a missing results value, both unreporting policies, outlier models on with the flags "
@@ -148,8 +148,25 @@ def encode(case, frames, flags):
             impl.append(f"({slit(r['geographic_unit_fips'])}, {CAT.get(r['unit_category'], 'Unexpected')}, {core.blit(int(r['reporting']) == 1)})")
     ft = llit([slit(x) for x in flags["turnout_factor"]])
     fm = llit([slit(x) for x in flags["results_normalized_margin"]])
+    # derived quantities of every modelled unit, recomputed inside Coq from the unit's own counts (exact values of the floats)
+    derived = []
+    for fr in frames[:2]:
+        for _, r in fr.iterrows():
+            vals = [r["results_weights"], r["baseline_weights"], r["turnout_factor"]]
+            if any(v != v for v in vals):
+                derived.append("false")
+                continue
+            derived.append(f"check_turnout_factor {qlit(float(vals[0]))} {qlit(float(vals[1]))} {qlit(float(vals[2]))}")
+            if margin:
+                mv = [r["results_dem"], r["results_gop"], r["results_weights"], r["results_margin"], r["results_normalized_margin"]]
+                derived.append("false" if any(v != v for v in mv) else "check_margin_columns " + " ".join(qlit(float(v)) for v in mv))
+            for e in p["estimands"]:
+                if e == "margin" or fr is not frames[0] or f"residuals_{e}" not in fr.columns:
+                    continue
+                rv = [r[f"results_{e}"], r[f"baseline_{e}"], r[f"last_election_results_{e}"], r[f"residuals_{e}"]]
+                derived.append("false" if any(v != v for v in rv) else "check_residual " + " ".join(qlit(float(v)) for v in rv))
     return (f"let p := {params} in let base := {base} in let feed := {feed} in "
-            f"[check_get_units p {ft} {fm} base feed {llit(impl)}; check_decision_table p {ft} {fm} base feed]")
+            f"[check_get_units p {ft} {fm} base feed {llit(impl)}; check_decision_table p {ft} {fm} base feed; forallb (fun b : bool => b) {llit(derived)}]")
 
 
 def s_oracle(case, frames, flags):
@@ -237,7 +254,7 @@ def worker(job):
     res["nontrivial"] = len(cats) >= 4
     res["s"] = s_oracle(case, frames, flags)
     res["exprs"].append(encode(case, frames, flags))
-    res["labels"].append(["get_units-vs-procedural-model", "procedural-vs-decision-table"])
+    res["labels"].append(["get_units-vs-procedural-model", "procedural-vs-decision-table", "derived-columns"])
     if kw.get("via_client") and not kw.get("probe"):
         h, flags2 = run_via_client(case)
         fp["client"] = bool(h["ok"])
